@@ -14,7 +14,8 @@ EXPLANATION = ("TermFlow (abstract interpretation of rustc MIR with symbolic ter
                "with all crate-local callees and closures inlined. Every store to ChunkFooter.ptr is classified (BUMP/RECLAIM/SAVED/EMPTY; FULL/OTHER are violations) "
                "and its obligations (J2 re-established: data <= new <= footer, aligned to MIN_ALIGN; BUMP: new <= old and new+size <= old; RECLAIM/SAVED/EMPTY: gating by the "
                "is_last_allocation equality, reclaimed range bounded by the released block) are discharged by the fixed lemma library; "
-               "the footer aggregate written by the acquirer is checked against the block returned by the global allocator (J1, J3, fit of the request).")
+               "the footer aggregate written by the acquirer is checked against the block returned by the global allocator (J1, J3, fit of the request)."
+               ' (R9) the obligations of C12 on grow / shrink / deallocate and the Allocator glue (returned slice length, no release on a path that can still return Err, copy discipline) are evaluated here too, because the property quantifies over those operations.')
 RULE = ("rule instance = (rule, store/call site in its inlined call stack); non-trivial = has at least one arithmetic or gating obligation; "
         "distinct = distinct (rule, entry, innermost function, site ordinal)")
 
